@@ -102,13 +102,15 @@ class ModelError(Exception):
 
 
 def run_model(entry, args, chunk=20000):
-    """Run the extracted model on a list of sx-encodable arguments; returns parsed results."""
+    """Run the extracted model on a list of sx-encodable arguments; returns parsed results.
+    [entry] is one entry-point name or a list of names parallel to [args]."""
     if not os.path.exists(DRIVER):
         raise ModelError("driver missing: run `make setup` in " + VERIF)
     res = []
     for i in range(0, len(args), chunk):
         part = args[i : i + chunk]
-        inp = "".join("%s %s\n" % (entry, sx_dump(a)) for a in part)
+        names = entry[i : i + chunk] if isinstance(entry, list) else [entry] * len(part)
+        inp = "".join("%s %s\n" % (n, sx_dump(a)) for n, a in zip(names, part))
         p = subprocess.run([DRIVER], input=inp.encode(), stdout=subprocess.PIPE, stderr=subprocess.PIPE, timeout=3600)
         if p.returncode != 0:
             raise ModelError("driver failed: " + p.stderr.decode()[:500])
@@ -181,10 +183,11 @@ def run_model_in_coq(entry, args, tag):
     with open(path, "w") as f:
         f.write("From Coq Require Import ZArith List String.\nFrom Cfi Require Import Glue.Sx Extract.Entry.\n")
         f.write("Import ListNotations.\nOpen Scope Z_scope.\nOpen Scope string_scope.\n")
-        for a in args:
+        names = entry if isinstance(entry, list) else [entry] * len(args)
+        for n, a in zip(names, args):
             out = []
             _coq_sx(a, out)
-            f.write('Eval vm_compute in (dispatch (s2l "%s") (%s)).\n' % (entry, "".join(out)))
+            f.write('Eval vm_compute in (dispatch (s2l "%s") (%s)).\n' % (n, "".join(out)))
     p = subprocess.run(
         ["coqc", "-R", COQDIR, "Cfi", path], stdout=subprocess.PIPE, stderr=subprocess.PIPE, timeout=1800, cwd=d
     )
